@@ -151,6 +151,9 @@ class SuperProxy(object):
         self.interp, self.obj, self.after = interp, obj, after
 
 
+COVERAGE = None          # set of (module, line) of interpreted statements when tools/coverage.py asks for it
+
+
 class Frame(object):
     def __init__(self, module, parent=None, owner=None, fn=None):
         self.env = {}
@@ -544,6 +547,8 @@ class Interp(object):
         if self.steps > self.MAX_STEPS:
             raise AnalysisError('step budget exceeded (possible non-terminating loop) at %s' % fr.module.where(node))
         self.cur = (fr.module, node)
+        if COVERAGE is not None:
+            COVERAGE.add((fr.module.name, getattr(node, 'lineno', 0)))
 
     def exec_stmt(self, st, fr):
         self.tick(st, fr)
